@@ -236,6 +236,7 @@ def run(ctx):
 
     r26_6(ctx)
     r26_7(ctx)
+    r26_8(ctx)
 
     # ---- R26.4 ------------------------------------------------------------------------------------------------------
     sar = [f for f in F.all_fns() if f['file'] == 'lib/sarifreport.cpp' and F.body(f) is not None]
@@ -405,3 +406,32 @@ def r26_7(ctx):
                     'so the SARIF report no longer carries the same levels as the text and XML output' % (key, sorted(members) or 'data that is not the finding', x['l'])),
                    '%s:%s' % (f['file'], x['l']))
     ctx.floor('R26.7 per-result fields checked', n, 2)
+
+
+def r26_8(ctx):
+    """R26.8  the SARIF writer carries every finding: the loop of SarifReport::serializeResults over the collected findings has no continue / break / return
+    that skips a finding.  (Today one: findings without a location are skipped "because github only supports findings with locations" - text and XML output
+    carry them, so this is a known finding.)"""
+    from .common.facts import walk_parents
+    F = ctx.facts
+    ctx.rule('R26.8', 'no finding is skipped by the SARIF result loop')
+    f = F.one('SarifReport::serializeResults')
+    body = F.body(f)['body']
+    loop = next((x for x in walk(body) if x.get('k') == 'CXXForRangeStmt' and x.get('var') is not None), None)
+    if loop is None:
+        raise AnalysisBroken('SarifReport::serializeResults: loop over the findings not found')
+    fv = loop['var']['di']
+    n = 0
+    for x, parents in walk_parents(loop.get('body') or {}):
+        if x.get('k') not in ('ContinueStmt', 'BreakStmt', 'ReturnStmt'):
+            continue
+        if any(p.get('k') in ('ForStmt', 'WhileStmt', 'DoStmt', 'CXXForRangeStmt', 'SwitchStmt', 'LambdaExpr') for p in parents):
+            continue
+        n += 1
+        conds = [p['cond'] for p in parents if p.get('k') == 'IfStmt' and p.get('cond') is not None]
+        sig = sorted({(y.get('n') or '').split('::')[-1] for c in conds for y in walk(c) if y.get('k') == 'MemberExpr' and y.get('dk') == 'Field' and
+                      any(z.get('di') == fv for z in walk(y))}) or ['unconditional']
+        ctx.ob('R26.8', 'sarif-skip:%s' % '+'.join(sig), False,
+               'SarifReport::serializeResults skips a finding (%s at line %s, condition on %s): the finding is part of the text and XML output but not of the SARIF output'
+               % (x['k'], x['l'], ', '.join(sig)), '%s:%s' % (f['file'], x['l']))
+    ctx.ob('R26.8', 'sarif-skip-census', True, 'the SARIF result loop has %d skipping statement(s)' % n, '%s:%s' % (f['file'], loop['l']))
